@@ -266,6 +266,9 @@ struct Env {
     udp_target_port: u16,
     /// a second UDP target (replies marked 'S'): one SOCKS5 association addresses both
     udp_target2_port: u16,
+    /// a name with an IPv6 and an IPv4 address (in that order) while the server cannot open IPv6 sockets for outgoing
+    /// traffic: a direct connection from the server falls back to the second address, so must the tunnel
+    dual_host: Option<String>,
 }
 
 trait Duplex: AsyncRead + AsyncWrite + Unpin + Send {}
@@ -290,7 +293,9 @@ async fn enter(env: &Env, c: &Conv) -> Result<Box<dyn Duplex>, String> {
                 req.extend(b"verif\0");
             } else {
                 req.extend([0, 0, 0, 9]);
-                req.extend(b"verif\0localhost\0");
+                req.extend(b"verif\0");
+                req.extend(env.dual_host.as_deref().unwrap_or("localhost").as_bytes());
+                req.push(0);
             }
             s.write_all(&req).await.map_err(|x| e("socks4 request", x))?;
             let mut rep = [0u8; 8];
@@ -317,13 +322,15 @@ async fn enter(env: &Env, c: &Conv) -> Result<Box<dyn Duplex>, String> {
             let mut req = vec![5u8, 1, 0];
             match c.entry {
                 Entry::Socks5V4 | Entry::UnixSocks5 => req.extend([1, 127, 0, 0, 1]),
-                Entry::Socks5V6 => {
+                // (in a multi-address run the server has no usable IPv6 source address: literal IPv6 targets become the name)
+                Entry::Socks5V6 if env.dual_host.is_none() => {
                     req.push(4);
                     req.extend(std::net::Ipv6Addr::LOCALHOST.octets());
                 }
                 _ => {
-                    req.extend([3, 9]);
-                    req.extend(b"localhost");
+                    let name = env.dual_host.as_deref().unwrap_or("localhost");
+                    req.extend([3, name.len() as u8]);
+                    req.extend(name.as_bytes());
                 }
             }
             req.extend(tport.to_be_bytes());
@@ -354,7 +361,8 @@ async fn enter(env: &Env, c: &Conv) -> Result<Box<dyn Duplex>, String> {
             } else {
                 Box::new(TcpStream::connect(("127.0.0.1", env.http_port)).await.map_err(|x| e("connect http", x))?)
             };
-            let req = format!("CONNECT 127.0.0.1:{tport} HTTP/1.1\r\nHost: 127.0.0.1:{tport}\r\n\r\n");
+            let thost = env.dual_host.as_deref().unwrap_or("127.0.0.1");
+            let req = format!("CONNECT {thost}:{tport} HTTP/1.1\r\nHost: {thost}:{tport}\r\n\r\n");
             s.write_all(req.as_bytes()).await.map_err(|x| e("http connect", x))?;
             let mut head = Vec::new();
             let mut b = [0u8; 1];
@@ -586,6 +594,12 @@ struct UdpObs {
     oneway_then_replies: usize,
     bad_header: Vec<String>,
     assoc_err: Option<String>,
+    /// SOCKS5: datagrams with FRAG != 0 sent (a relay without reassembly must drop them, RFC 1928 section 7), how many of them
+    /// were nevertheless answered by the target, and ordinary datagrams sent / replies received AFTER the fragments
+    fragments_sent: usize,
+    fragments_answered: usize,
+    after_frag_sent: usize,
+    after_frag_replies: usize,
 }
 
 async fn udp_target(sock: UdpSocket, marker: u8) {
@@ -674,7 +688,15 @@ async fn udp_client(env: Arc<Env>, seed: u64, cid: u64, socks5: bool, n: usize, 
             expected.insert((seq, r), out);
         }
         let wire = if socks5 {
-            let mut w = vec![0u8, 0, 0, 1, 127, 0, 0, 1];
+            let mut w = match (&env.dual_host, second) {
+                // multi-address run: the first target is addressed by a name whose first address the server cannot use
+                (Some(h), false) => {
+                    let mut w = vec![0u8, 0, 0, 3, h.len() as u8];
+                    w.extend(h.as_bytes());
+                    w
+                }
+                _ => vec![0u8, 0, 0, 1, 127, 0, 0, 1],
+            };
             w.extend(if second { env.udp_target2_port } else { env.udp_target_port }.to_be_bytes());
             w.extend(&req);
             w
@@ -689,6 +711,54 @@ async fn udp_client(env: Arc<Env>, seed: u64, cid: u64, socks5: bool, n: usize, 
         collect(&sock, dest, socks5, cid, &expected, &mut seen, &mut o, deadline).await;
     }
     collect(&sock, dest, socks5, cid, &expected, &mut seen, &mut o, Instant::now() + Duration::from_millis(400)).await;
+    if socks5 {
+        // a datagram with FRAG != 0 (legal; an implementation that does not reassemble MUST drop it and nothing else): the
+        // association must go on serving ordinary datagrams afterwards
+        let base = n as u32 + 300;
+        let mk = |seq: u32| {
+            let mut req = cid.to_be_bytes().to_vec();
+            req.push((seq & 0xff) as u8);
+            req.push(1);
+            req.extend(seq.to_be_bytes());
+            req.extend(prf_vec(mix(seed, cid * 1000 + u64::from(seq)), 0, 40));
+            req
+        };
+        let nfrag = rng.range(1, 3) as u32;
+        for k in 0..nfrag {
+            let seq = base + k;
+            let req = mk(seq);
+            let mut out = vec![b'R', 0];
+            out.extend_from_slice(&req);
+            expected.insert((seq, 0), out);
+            let frag = *rng.pick(&[1u8, 2, 0x7f, 0x80, 0x81, 0xff]);
+            let mut w = vec![0u8, 0, frag, 1, 127, 0, 0, 1];
+            w.extend(env.udp_target_port.to_be_bytes());
+            w.extend(&req);
+            if sock.send_to(&w, dest).await.is_ok() {
+                o.fragments_sent += 1;
+            }
+            collect(&sock, dest, socks5, cid, &expected, &mut seen, &mut o, Instant::now() + Duration::from_millis(30)).await;
+        }
+        let before = o.replies;
+        for k in 0..6u32 {
+            let seq = base + 10 + k;
+            let req = mk(seq);
+            let mut out = vec![b'R', 0];
+            out.extend_from_slice(&req);
+            expected.insert((seq, 0), out);
+            let mut w = vec![0u8, 0, 0, 1, 127, 0, 0, 1];
+            w.extend(env.udp_target_port.to_be_bytes());
+            w.extend(&req);
+            if sock.send_to(&w, dest).await.is_ok() {
+                o.after_frag_sent += 1;
+            }
+            collect(&sock, dest, socks5, cid, &expected, &mut seen, &mut o, Instant::now() + Duration::from_millis(100)).await;
+        }
+        collect(&sock, dest, socks5, cid, &expected, &mut seen, &mut o, Instant::now() + Duration::from_millis(300)).await;
+        o.fragments_answered = (0..nfrag).filter(|k| seen.contains(&(base + k, 0))).count();
+        let _ = before;
+        o.after_frag_replies = (0..6u32).filter(|k| seen.contains(&(base + 10 + k, 0))).count();
+    }
     if cid % 4 == 1 {
         // one-way traffic for longer than the relay's idle time-out (a datagram every second, no reply asked for), then the
         // target answers to the address it first heard from: the flow is one flow all along, the reply must arrive
@@ -823,8 +893,12 @@ struct RunOut {
     ready: bool,
 }
 
-async fn run_once(seed: u64, convs: Vec<Conv>, udp_clients: Vec<(u64, bool, usize, usize)>, concurrency: usize, dir: &std::path::Path) -> RunOut {
-    let state = State::new().await.expect("state").with_not_found_resp("404").with_backend_http2_support(false);
+async fn run_once(seed: u64, convs: Vec<Conv>, udp_clients: Vec<(u64, bool, usize, usize)>, concurrency: usize, dir: &std::path::Path, dual_host: Option<String>) -> RunOut {
+    let mut state = State::new().await.expect("state").with_not_found_resp("404").with_backend_http2_support(false);
+    if dual_host.is_some() {
+        // RFC 3849 documentation address: not configured on any interface, so binding an outgoing IPv6 socket fails
+        state = state.with_outgoing_from(std::net::Ipv4Addr::UNSPECIFIED, "2001:db8::1".parse().expect("addr"));
+    }
     let srv_l = TcpListener::bind("127.0.0.1:0").await.expect("bind");
     let srv_addr = srv_l.local_addr().expect("addr");
     let srv = tokio::spawn(run_listener(srv_l, None, state));
@@ -846,6 +920,8 @@ async fn run_once(seed: u64, convs: Vec<Conv>, udp_clients: Vec<(u64, bool, usiz
     let ut2 = UdpSocket::bind("127.0.0.1:0").await.expect("bind");
     let udp_target2_port = ut2.local_addr().expect("addr").port();
     let ue2 = tokio::spawn(udp_target(ut2, b'S'));
+    // must be called inside the runtime (tokio sockets); the guards live until the end of the run
+    let (refuse_port, _refuse_guard) = net::reserve_refusing_port();
     let env = Arc::new(Env {
         fixed_port: net::free_tcp_port(false),
         fixed_refuse_port: net::free_tcp_port(false),
@@ -856,9 +932,10 @@ async fn run_once(seed: u64, convs: Vec<Conv>, udp_clients: Vec<(u64, bool, usiz
         http_port: net::free_tcp_port(false),
         udp_port: net::free_udp_port(),
         target_port,
-        refuse_port: net::free_tcp_port(false),
+        refuse_port,
         udp_target_port,
         udp_target2_port,
+        dual_host,
     });
     let args: &'static ClientArgs = Box::leak(Box::new(ClientArgs {
         server: ServerUrl::from_str(&format!("ws://{srv_addr}/ws")).expect("url"),
@@ -1142,6 +1219,13 @@ fn judge(st: &mut Stats, seed: u64, out: &RunOut) {
                 st.violation(Violation { signature: format!("udp-flow-dead-after-idle|{kind}"), detail: format!("the local socket was silent for 11 s and then sent {} datagrams at 200 ms intervals: not one reply came back although the exchange worked before the pause ({} replies): the flow stays black-holed", o.after_idle_sent, o.replies - o.after_idle_replies), replay: replay() });
             }
         }
+        if o.fragments_sent > 0 {
+            st.target("socks5_udp_fragments_sent", o.fragments_sent as u64);
+            st.count("socks5_udp_fragments_answered_by_target", o.fragments_answered as u64);
+            if o.after_frag_sent >= 5 && o.after_frag_replies == 0 && o.replies > 0 {
+                st.violation(Violation { signature: format!("udp-association-dead-after-fragment|{kind}"), detail: format!("the association served {} replies, then the client sent {} datagram(s) with FRAG != 0 (which a relay without reassembly drops) and {} ordinary datagrams at 100 ms intervals: not one of those was answered - the association stopped relaying", o.replies, o.fragments_sent, o.after_frag_sent), replay: replay() });
+            }
+        }
         if o.sent >= 5 && o.replies == 0 {
             st.violation(Violation { signature: format!("udp-nothing-delivered|{kind}"), detail: format!("{} datagrams were sent at a moderate pace and not a single reply came back", o.sent), replay: replay() });
         }
@@ -1164,13 +1248,26 @@ pub fn run(p: &Params) -> (Stats, &'static str) {
         let concurrency = *rng.pick(&[1usize, 4, 16]);
         st.cell("concurrency", concurrency);
         st.cell("udp_clients", n_udp);
+        // every other run: names with several addresses (needs the /etc/hosts the driver prepares in a private mount namespace)
+        let dual_host = match std::env::var("VERIF_DUAL_HOST") {
+            Ok(h) if (p.shard + round) % 2 == 1 => Some(h),
+            Ok(_) => None,
+            Err(_) => {
+                st.count("multi_address_runs_not_available_here", 1);
+                None
+            }
+        };
+        if dual_host.is_some() {
+            st.target("multi_address_target_runs", 1);
+        }
+        st.cell("target_name", if dual_host.is_some() { "two-addresses-first-unusable" } else { "single-address" });
         let rt = tokio::runtime::Builder::new_multi_thread().worker_threads(4).enable_all().build().expect("rt");
-        let mut out = rt.block_on(run_once(seed, convs.clone(), udp.clone(), concurrency, dir.path()));
+        let mut out = rt.block_on(run_once(seed, convs.clone(), udp.clone(), concurrency, dir.path(), dual_host.clone()));
         if !out.ready {
             // port races at start-up: try once more before giving up
             rt.shutdown_background();
             let rt2 = tokio::runtime::Builder::new_multi_thread().worker_threads(4).enable_all().build().expect("rt");
-            out = rt2.block_on(run_once(mix(seed, 1), convs, udp, concurrency, dir.path()));
+            out = rt2.block_on(run_once(mix(seed, 1), convs, udp, concurrency, dir.path(), dual_host.clone()));
             rt2.shutdown_background();
             if !out.ready {
                 st.inconclusive.push(format!("c01: the tunnel never became ready (client exit: {:?})", out.client_exit));
